@@ -22,6 +22,16 @@ def _digits(s: str) -> bool:
     return 1 <= len(s) <= 2 and all(c in "0123456789" for c in s)
 
 
+def _path_for(pio, level, ix, iy):
+    """Path the tile for (level, ix, iy) (decimal strings) is written to + the renderings the template is expanded with.
+    The string-level path builder is used when the code has one; otherwise the public tile_path(Pos)."""
+    f = getattr(pio, "_tile_path", None)
+    if f is not None:
+        return f(level, ix, iy, format=None, makedirs=False), (level, ix, iy)
+    n, x, y = int(level), int(ix), int(iy)
+    return pio.tile_path(Pos(n, x, y), makedirs=False), (str(n), str(x), str(y))
+
+
 def chk_template_matches_path_lyyx(level: str, ix: str, iy: str) -> bool:
     """
     L/Y/YX scheme: expanding the recorded template with (level, x, y) gives the relative path the tile is written to.
@@ -30,9 +40,9 @@ def chk_template_matches_path_lyyx(level: str, ix: str, iy: str) -> bool:
     post: _
     """
     pio = PyramidIO("/base", scheme="L/Y/YX", default_format="png")
-    p = pio._tile_path(level, ix, iy, format=None, makedirs=False)
+    p, (a, b, c) = _path_for(pio, level, ix, iy)
     url = pio.get_path_scheme() + "." + pio.get_default_format()
-    return p == "/base/" + _expand(url, level, ix, iy)
+    return p == "/base/" + _expand(url, a, b, c)
 
 
 def chk_template_matches_path_lxy(level: str, ix: str, iy: str) -> bool:
@@ -43,9 +53,9 @@ def chk_template_matches_path_lxy(level: str, ix: str, iy: str) -> bool:
     post: _
     """
     pio = PyramidIO("/base", scheme="LXY", default_format="fits")
-    p = pio._tile_path(level, ix, iy, format=None, makedirs=False)
+    p, (a, b, c) = _path_for(pio, level, ix, iy)
     url = pio.get_path_scheme() + "." + pio.get_default_format()
-    return p == "/base/" + _expand(url, level, ix, iy)
+    return p == "/base/" + _expand(url, a, b, c)
 
 
 def chk_tile_path_renders_position(n: int, x: int, y: int, s: int, f: int, g: int) -> bool:
